@@ -462,6 +462,45 @@ def run_types(arg):
     return part.result()
 
 
+def run_builtins(_):
+    """the write as an argument of a built-in function: every function x every argument position, in a guard and in an initialiser"""
+    import exprgen as G
+    part = engine.Part()
+    w = engine.worker("fast")
+    fns = dict(G.BUILTIN_ALL)
+    fns.update(G.BUILTIN)
+    decl = GDECL + "int f1() { v = 1; return k; }\n"
+    cells = []
+    for key, (name, arity) in sorted(fns.items()):
+        for pos in range(arity):
+            for wid, we, twin_run, twin_ct in (("assign", "(v = 1)", "(v + 1)", "(k + 1)"), ("increment", "v++", "v", "k"), ("writer-call", "f1()", "rd()", "rk()")):
+                def call_(e):
+                    args = ["1.0"] * arity
+                    args[pos] = e
+                    return "%s(%s)" % (name, ", ".join(args))
+                cells.append(("builtin-argument:%s:arg%d:%s:guard" % (name, pos + 1, wid),
+                              X.nta(decl, [T(guard="%s >= 0.0" % call_(we))], SYS), X.nta(decl, [T(guard="%s >= 0.0" % call_(twin_run))], SYS)))
+                cells.append(("builtin-argument:%s:arg%d:%s:initialiser" % (name, pos + 1, wid),
+                              X.nta(decl + "double q = %s;" % call_(we), [T()], SYS), X.nta(decl + "double q = %s;" % call_(twin_ct), [T()], SYS)))
+    rw = X.run_docs(w, [c[1] for c in cells], want=["noinv"], batch=50)
+    rt = X.run_docs(w, [c[2] for c in cells], want=["noinv"], batch=50)
+    for (cid, dw, dt), a, b in zip(cells, rw, rt):
+        part.count()
+        rp = {"op": "xml", "buf": dw, "twin": dt}
+        if engine.check_crash(part, PID, a, cid, rp) or engine.check_crash(part, PID, b, cid, rp):
+            continue
+        if not X.accepted(b):
+            part.outcome("builtin-form-not-valid")      # the function does not take such an argument at all
+            continue
+        part.nontrivial_case(cid)
+        if X.accepted(a):
+            part.outcome("write-accepted")
+            part.violation("write-accepted:" + cid, "%s: the argument writes a variable but the model is accepted" % cid, rp)
+        else:
+            part.outcome("write-rejected")
+    return part.result()
+
+
 def run_process_queries(_):
     """queries that call template-local functions through a process (P1.f()) or an element of a process set (T(1).f())"""
     part = engine.Part()
@@ -524,6 +563,7 @@ def main():
     rep.merge(run_shadowed(None))
     rep.merge(run_dynamic_orders(None))
     rep.merge(run_process_queries(None))
+    rep.merge(run_builtins(None))
     thorough = engine.tier() == 'thorough'
     for res in engine.pmap(run_types, [(thorough, i, 32) for i in range(32)]):
         rep.merge(res)
